@@ -46,8 +46,13 @@ def run_shard(pid, tier, seed, check, shard, n_examples):
     """Run one shard of one check under Hypothesis; returns Recorder.export()."""
     rec = Recorder(pid, tier, seed)
     last = {}
+    first = {"pending": shard > 0}
 
     def body(case):
+        # Hypothesis always starts with the all-minimal example; only shard 0 executes it
+        if first["pending"]:
+            first["pending"] = False
+            return
         try:
             info = guarded(check.execute, case)
         except Violation as v:
@@ -70,7 +75,7 @@ def run_shard(pid, tier, seed, check, shard, n_examples):
     if check.shrink.get(tier, True):
         phases.append(Phase.shrink)
     st = settings(
-        max_examples=max(1, n_examples),
+        max_examples=max(1, n_examples) + (1 if shard > 0 else 0),
         database=None,
         deadline=None,
         derandomize=False,
